@@ -906,3 +906,11 @@ mutant("C16-M40", "C16", "R16n", "saturation not re-based (defect #26 restored)"
 mutant("C18-M33", "C18", "R18f", "transition matrix labels only checked for the rows (seeded C18f)", FW, "ProjectFramework._process_transitions", "for comp in set(list(df.index) + list(df.columns)):", "for comp in df.index:")
 twin("C18-T7", "C18", "transition matrix labels collected with a union", FW, "ProjectFramework._process_transitions", "for comp in set(list(df.index) + list(df.columns)):", "for comp in sorted(set(df.index).union(df.columns)):")
 mutant("C20-M26", "C20", "R20c", "ratio accessor writes a placeholder into its denominator's stored series (seeded C20f)", M, "Characteristic.vals", "                vals[denom > 0] /= denom[denom > 0]", "                denom[denom <= 0] = 1.0\n                vals[denom > 0] /= denom[denom > 0]")
+mutant("C16-M41", "C16", "R16p", "capacity constraint row read into the coverage field", PR, "ProgramSet._read_spending", 'set_ts(prog, "capacity_constraint", tdve.ts["Capacity constraint"])', 'set_ts(prog, "coverage", tdve.ts["Capacity constraint"])')
+mutant("C16-M42", "C16", "R16p", "saturation row not read back", PR, "ProgramSet._read_spending", '            set_ts(prog, "saturation", tdve.ts["Saturation"])\n', "")
+mutant("C16-M43", "C16", "R16p", "set_ts only stores series that came without units", PR, "ProgramSet._read_spending", "                setattr(prog, field_name, ts)", "                    setattr(prog, field_name, ts)")
+twin("C16-T10", "C16", "coverage row read before the unit cost row", PR, "ProgramSet._read_spending", '            set_ts(prog, "unit_cost", tdve.ts["Unit cost"])\n            set_ts(prog, "coverage", tdve.ts["Coverage"])\n', '            set_ts(prog, "coverage", tdve.ts["Coverage"])\n            set_ts(prog, "unit_cost", tdve.ts["Unit cost"])\n')
+mutant("C16-M44", "C16", "R16q", "impact interaction column recognised under the wrong header", PR, "ProgramSet._read_effects", 'elif idx_to_header[i].lower() == "impact interaction":', 'elif idx_to_header[i].lower() != "impact interaction":')
+mutant("C16-M45", "C16", "R16q", "a baseline of 0 is treated as missing", PR, "ProgramSet._read_effects", "                            if x.value is not None:  # test `is not None` because it might be entered as 0\n                                baseline = float(x.value)", "                            if x.value:\n                                baseline = float(x.value)")
+mutant("C16-M46", "C16", "R16q", "uncertainty written from the baseline", PR, "ProgramSet._write_effects", "sheet.write(current_row, 4, covout.sigma,", "sheet.write(current_row, 4, covout.baseline,")
+twin("C16-T11", "C16", "header lower-cased once into a local", PR, "ProgramSet._read_effects", "                    try:\n                        if idx_to_header.get(i, None) is None:", "                    try:\n                        if idx_to_header.get(i, None) is None:  # blank header")
